@@ -136,10 +136,13 @@ std::shared_ptr< Node> find( const std::string& p)
 void ev( const char* name, const std::string& what, long long a, long long result)
 {
    World&  wd = w();
+   // descriptor numbers depend on what else the process has open: they are
+   // shown in the readable trace but are not part of the run's identity
+   const bool  is_open = strcmp( name, "open") == 0, is_close = strcmp( name, "close") == 0;
    wd.hash.add( fnv1a( name, strlen( name)));
    wd.hash.add( what);
-   wd.hash.add( static_cast< uint64_t>( a));
-   wd.hash.add( static_cast< uint64_t>( result));
+   wd.hash.add( static_cast< uint64_t>( is_close ? 0 : a));
+   wd.hash.add( static_cast< uint64_t>( (is_open && result >= 0) ? 0 : result));
    if (wd.trace != nullptr)
    {
       char  buf[ 64];
